@@ -27,7 +27,12 @@ func (g *Gen) verifyFunc(fc *FuncContract) (*VC, error) {
 	if fn == nil {
 		return nil, fmt.Errorf("contract anchor not found: no SSA body for %s", fc.Key)
 	}
-	vc := g.newVC(shortKey(fc.Key), fn, fc)
+	name := shortKey(fc.Key)
+	if fc.Closure != "" {
+		// closures are named by their structural role, not by go/ssa's ordinal, so unrelated edits do not rename obligations
+		name = "closure " + strings.Join(strings.Fields(fc.Closure), " ")
+	}
+	vc := g.newVC(name, fn, fc)
 	vc.curProps = fc.Props
 	fr := vc.newFrame(fn, nil)
 	fr.top = true
@@ -149,6 +154,22 @@ func (g *Gen) verifyFunc(fc *FuncContract) (*VC, error) {
 				vc.frameTg[t.heap] = append(vc.frameTg[t.heap], t)
 			}
 		}
+	}
+	if fc.GoFrames {
+		g.goFrameObligations(vc, fn)
+	}
+	for _, lit := range fc.Literals {
+		got, err := literalTable(fn, lit[0])
+		goal := "true"
+		src := fmt.Sprintf("composite literal of type %s is exactly the documented table", lit[0])
+		if err != nil {
+			goal = "false"
+			src += ": " + err.Error()
+		} else if got != lit[1] {
+			goal = "false"
+			src += fmt.Sprintf(": found %q, expected %q", got, lit[1])
+		}
+		vc.addObl(&Obligation{Name: "literal:" + lit[0], Kind: "structural", PC: "true", Goal: goal, Src: src})
 	}
 	pc = vc.define("entrypc", "Bool", pc)
 	entryPC := pc
@@ -326,20 +347,59 @@ func (fr *Frame) namedValuesAt(li *loopInfo) map[string]ssa.Value {
 	}
 	out := map[string]ssa.Value{}
 	for name, vs := range cands {
-		if len(vs) != 1 {
-			continue
-		}
+		// values of the variable that dominate the loop header from outside the loop; the latest one (dominated by all
+		// the others) is the variable's value on entry to the loop
+		var doms []ssa.Value
 		for v := range vs {
-			if ins, ok := v.(ssa.Instruction); ok {
-				if ins.Block() != nil && ins.Block().Dominates(li.header) && !li.blocks[ins.Block()] {
-					out[name] = v
-				}
-			} else {
-				switch v.(type) {
-				case *ssa.Parameter:
-					out[name] = v
+			switch x := v.(type) {
+			case *ssa.Parameter:
+				doms = append(doms, v)
+			case ssa.Instruction:
+				if x.Block() != nil && x.Block().Dominates(li.header) && !li.blocks[x.Block()] {
+					doms = append(doms, v)
 				}
 			}
+		}
+		if len(doms) == 0 {
+			continue
+		}
+		blockOf := func(v ssa.Value) *ssa.BasicBlock {
+			if ins, ok := v.(ssa.Instruction); ok {
+				return ins.Block()
+			}
+			return fr.fn.Blocks[0]
+		}
+		var best ssa.Value
+		for _, c := range doms {
+			last := true
+			for _, o := range doms {
+				if o == c {
+					continue
+				}
+				bo, bc := blockOf(o), blockOf(c)
+				if bo == bc {
+					oi, oki := o.(ssa.Instruction)
+					ci, okc := c.(ssa.Instruction)
+					if oki && okc && instrIndex(oi) > instrIndex(ci) {
+						last = false
+					}
+					if !oki || !okc {
+						if _, isParam := c.(*ssa.Parameter); isParam {
+							last = false
+						}
+					}
+					continue
+				}
+				if !bo.Dominates(bc) {
+					last = false
+				}
+			}
+			if last {
+				best = c
+			}
+		}
+		if best != nil {
+			out[name] = best
 		}
 	}
 	return out
@@ -605,4 +665,55 @@ func (g *Gen) findLemma(pkgPath, name string) *Lemma {
 		}
 	}
 	return nil
+}
+
+// closedWorldVC: frame obligation "every call of this function in the repository sits in a function under a verified
+// contract" (so that the callee's precondition has been checked at every call site that exists).
+func (g *Gen) closedWorldVC(fc *FuncContract) *VC {
+	vc := g.newVC("closedworld "+shortKey(fc.Key), nil, nil)
+	vc.curProps = fc.Props
+	target := g.fnOf[fc]
+	var bad []string
+	n := 0
+	for fn := range ssaAllFunctions(g.prog) {
+		if fn.Pkg == nil || !strings.HasPrefix(fn.Pkg.Pkg.Path(), "github.com/AliceO2Group/Control") {
+			continue
+		}
+		for _, b := range fn.Blocks {
+			for _, ins := range b.Instrs {
+				ci, ok := ins.(ssa.CallInstruction)
+				if !ok {
+					continue
+				}
+				c := ci.Common()
+				match := false
+				if sc := c.StaticCallee(); sc != nil {
+					if target != nil && sc == target {
+						match = true
+					} else if target == nil && (sc.String() == fc.Key) {
+						match = true
+					}
+				}
+				if !match {
+					continue
+				}
+				n++
+				cfc := g.contractFor(fn)
+				if fn == target {
+					continue
+				}
+				if cfc == nil || cfc.NoVerify || cfc.Trusted {
+					bad = append(bad, shortKey(fn.String()))
+				}
+			}
+		}
+	}
+	sort.Strings(bad)
+	goal := "true"
+	if len(bad) > 0 {
+		goal = "false"
+	}
+	vc.addObl(&Obligation{Name: "frame:callers", Kind: "frame", PC: "true", Goal: goal,
+		Src: fmt.Sprintf("all %d call sites of %s are in functions under contract; callers without contract: %v", n, shortKey(fc.Key), bad)})
+	return vc
 }
